@@ -224,6 +224,7 @@ def step (s : St) (line : String) : St × String :=
   let (toks, annToks) := splitBar toks
   match toks with
   | [] => (s, "")
+  | ["batch", _] => (s, "ok")     -- batch size of the C++ data set: invisible to the model
   | "data" :: d :: n :: rest =>
     match d.toNat?, n.toNat?, rest.mapM String.toInt? with
     | some d, some n, some xs =>
